@@ -2,9 +2,10 @@
 (***************************************************************************)
 (* SSH identification exchange and Gh0st (property C18).                   *)
 (*   'SSH-' (digits and dots) '-' software [SP comment] CR LF              *)
-(* Strict: non-empty version and software, no CR or LF inside software or  *)
-(* comment, no SP inside software, terminated by CR LF => MUST be answered *)
-(* with exactly "SSH-2.0-1\r\n".                                           *)
+(* Strict: non-empty version and software, software and comment made of    *)
+(* arbitrary bytes except NUL and LF (a lone CR, i.e. one not followed by  *)
+(* LF, is an ordinary byte), no SP inside software, terminated by CR LF    *)
+(* => MUST be answered with exactly "SSH-2.0-1\r\n".                       *)
 (* Loose: everything that is neither unterminated nor malformed (a lone CR *)
 (* inside software/comment, an empty software string are tolerated);       *)
 (* not accepted by Loose => MUST NOT be answered.                          *)
@@ -38,10 +39,12 @@ SshStrictStep(st, c) ==
       [] st = "VER0" -> IF IsDigitOrDot(c) THEN "VER" ELSE "FAIL"
       [] st = "VER" -> IF c = 45 THEN "SOFT0" ELSE IF IsDigitOrDot(c) THEN "VER" ELSE "FAIL"
       [] st = "SOFT0" -> IF c = 13 \/ c = 10 \/ c = 32 \/ c = 0 THEN "FAIL" ELSE "SOFT"
-      [] st = "SOFT" -> IF c = 13 THEN "CR" ELSE IF c = 32 THEN "COMM"
+      [] st = "SOFT" -> IF c = 13 THEN "SOFTCR" ELSE IF c = 32 THEN "COMM"
                         ELSE IF c = 10 \/ c = 0 THEN "FAIL" ELSE "SOFT"
-      [] st = "COMM" -> IF c = 13 THEN "CR" ELSE IF c = 10 \/ c = 0 THEN "FAIL" ELSE "COMM"
-      [] st = "CR" -> IF c = 10 THEN "EOB" ELSE "FAIL"
+      [] st = "SOFTCR" -> IF c = 10 THEN "EOB" ELSE IF c = 13 THEN "SOFTCR" ELSE IF c = 32 THEN "COMM"
+                          ELSE IF c = 0 THEN "FAIL" ELSE "SOFT"
+      [] st = "COMM" -> IF c = 13 THEN "COMMCR" ELSE IF c = 10 \/ c = 0 THEN "FAIL" ELSE "COMM"
+      [] st = "COMMCR" -> IF c = 10 THEN "EOB" ELSE IF c = 13 THEN "COMMCR" ELSE IF c = 0 THEN "FAIL" ELSE "COMM"
       [] OTHER -> st
 
 SshLooseRun(s, i, st0) ==
